@@ -1,1 +1,5 @@
 import B2Z.Props.C11
+import B2Z.Props.C12
+import B2Z.Props.C14
+import B2Z.Props.C16
+import B2Z.Props.C17
